@@ -228,3 +228,25 @@ Proof.
   cbn zeta. rewrite E1, E2, E3, E4, E5. reflexivity.
 Qed.
 Print Assumptions C10_pipeline_factors.
+
+(** Since fix 670b316 the bytes handed to yaml.v3 are [r_yaml r] = the masked bytes with every CR LF turned into LF
+    (the source lines keep their CR).  They are a function of [r_out], so the factoring carries over verbatim. *)
+Theorem C10_pipeline_factors_yaml : forall (Result : Type)
+    (downstream : string -> list string -> list comment -> list diag -> nat -> Result) tp f f',
+  control_comment_in_excluded_text tp f = false ->
+  control_comment_in_excluded_text tp f' = false ->
+  repl tp (SNormal false) 0 (chunks f) (chunks f') ->
+  Forall2 same_length (chunks f) (chunks f') ->
+  let a := reader_impl tp f in let b := reader_impl tp f' in
+  downstream (r_yaml a) (r_lines a) (r_comments a) (r_diags a) (r_lineno a) =
+  downstream (r_yaml b) (r_lines b) (r_comments b) (r_diags b) (r_lineno b).
+Proof.
+  intros Result downstream tp f f' G G' Hr Hl.
+  exact (C10_pipeline_factors Result (fun o => downstream (crlf_to_lf o)) tp f f' G G' Hr Hl).
+Qed.
+Print Assumptions C10_pipeline_factors_yaml.
+
+(** [crlf_to_lf] on the lead's example: CR LF endings become LF, a lone CR stays. *)
+Example C10_crlf_to_lf_example :
+  crlf_to_lf (bs [97; 13; 10; 98; 13; 99; 13; 10; 13]%N) = bs [97; 10; 98; 13; 99; 10; 13]%N.
+Proof. vm_compute. reflexivity. Qed.
